@@ -700,11 +700,15 @@ def explanation(pid, spec, obligations, discharged, b_rows, proved_all, level="o
                      " and every contract and lemma they rest on are discharged by the Lean kernel over code extracted from /repo on this run. "
                      + (top or {}).get("note", "") + " The bounded part below is the refuter scope / model probe, not part of the argument.")
     if obligations:
-        parts.append(f"{len(discharged)}/{len(obligations)} Lean obligations (function contracts and lemmas over code extracted from /repo on this run) "
+        parts.append(f"{len(discharged)}/{len(obligations)} obligations (the theorems in the dependency cone of the property-level theorems over code extracted from /repo on this run, "
+                     f"plus frame / glue / grammar obligations of the syntactic back ends) "
                      f"accepted by the Lean kernel with axioms ⊆ {{propext, Classical.choice, Quot.sound}}.")
     else:
         parts.append("No Lean obligation is registered for this property yet: nothing is counted as proved.")
-    if b_rows:
+    if b_rows and level == "proof":
+        parts.append("Bounded search on the real code (refuter and probe of the model, labelled bounded, never counted as proved): "
+                     + "; ".join(f"{r['part']}: {r['evaluations']} evaluations" for r in b_rows) + ".")
+    elif b_rows:
         parts.append("The composition up to the property statement is NOT proved; it is covered by bounded stand-ins on the real code, labelled bounded: "
                      + "; ".join(f"{r['part']}: {r['evaluations']} evaluations" for r in b_rows) + ".")
     return " ".join(parts)
